@@ -185,3 +185,51 @@ def lemma_gram(ctx):
     ctx.assume(ctx.neg(ctx.conj([ctx.zero(x) for x in m])))
     tot = sum(x * x for x in m)
     ctx.ensure("sum-of-squares-positive", (tot > 0) if ctx.symbolic else bool(tot > 0))
+
+
+@case("C11", "harmonic.crossratio.lattice", [], kind="bounded", functions=["geometer.operators.harmonic_set", "geometer.operators.crossratio", "geometer.point.SubspaceTensor.general_point"],
+      bound="2D: 14 lines (axes, through the origin, vertical, horizontal, generic) x 6 parameter triples incl. a point at infinity; 3D: 6 lines x 4 triples; "
+            "cross ratio of four concurrent 3D lines / coaxial planes for 5 pencils")
+def harmonic_lattice(ctx):
+    import geometer as g
+    from geometer.operators import harmonic_set, crossratio
+
+    lines2 = [((0, 0), (1, 0)), ((0, 0), (0, 1)), ((0, 0), (1, 1)), ((0, 3), (1, 3)), ((2, 0), (2, 1)), ((1, 2), (3, -1)), ((-1, -1), (2, 5)), ((0, 1), (1, 0)),
+              ((0, -2), (0, 5)), ((5, 0), (-3, 0)), ((1, 1), (2, 2)), ((0, 0), (3, -2)), ((4, 1), (4, 7)), ((-2, 3), (6, 3))]
+    params = [(0, 1, 2), (0, 1, 0.5), (-1, 3, 0.25), (0, 2, "inf"), (1, -2, 5), (0.5, 1.5, 3)]
+    for (p0, p1) in lines2:
+        P0, D = np.array(p0, dtype=float), np.array(p1, dtype=float) - np.array(p0, dtype=float)
+
+        def pt(t):
+            if t == "inf":
+                return g.Point([D[0], D[1], 0.0])
+            return g.Point(*(P0 + t * D))
+
+        for (ta, tb, tc) in params:
+            a, b, c = pt(ta), pt(tb), pt(tc)
+            try:
+                d = harmonic_set(a, b, c)
+                cr = crossratio(a, b, c, d)
+                ok = abs(cr + 1) < 1e-6 and bool(g.Line(a, b).contains(d))
+                got = float(np.real(cr))
+            except Exception as e:
+                ok, got = False, "%s: %s" % (type(e).__name__, e)
+            ctx.ensure("2d:harmonic_set-gives-cross-ratio--1-on-the-line", ok, witness=dict(line=(p0, p1), params=(ta, tb, tc), got=got))
+    lines3 = [((0, 0, 0), (1, 0, 0)), ((0, 0, 0), (1, 1, 1)), ((1, 2, 3), (0, 1, -1)), ((0, 0, 2), (0, 3, 0)), ((1, 1, 0), (0, 0, 1)), ((-1, 4, 2), (2, 2, 2))]
+    for (p0, d0) in lines3:
+        P0, D = np.array(p0, dtype=float), np.array(d0, dtype=float)
+        for (ta, tb, tc) in params[:3] + [(1, -2, 5)]:
+            a, b, c = (g.Point(*(P0 + t * D)) for t in (ta, tb, tc))
+            try:
+                d = harmonic_set(a, b, c)
+                cr = crossratio(a, b, c, d)
+                ok = abs(cr + 1) < 1e-6
+                got = float(np.real(cr))
+            except Exception as e:
+                ok, got = False, "%s: %s" % (type(e).__name__, e)
+            ctx.ensure("3d:harmonic_set-gives-cross-ratio--1", ok, witness=dict(line=(p0, d0), params=(ta, tb, tc), got=got))
+        # closed form for four collinear points in 3-space
+        xs = (0, 1, 3, -2)
+        pts = [g.Point(*(P0 + x * D)) for x in xs]
+        want = (xs[0] - xs[2]) * (xs[1] - xs[3]) / ((xs[0] - xs[3]) * (xs[1] - xs[2]))
+        ctx.ensure("3d:crossratio-of-collinear-points", abs(crossratio(*pts) - want) < 1e-6, witness=dict(line=(p0, d0), xs=xs, want=want, got=float(np.real(crossratio(*pts)))))
